@@ -528,6 +528,8 @@ class LabelRows(Filter[Iterable[Union[Dense,Sparse]],Iterable[Union[Dense,Sparse
             ind = first.headers[label] if isinstance(label,str) else label
             return map(LabelDense, rows, repeat(ind), repeat(tipe))
         else:
+            inv = getattr(first,'_inv',None)
+            if inv and label in inv: label = inv[label] #rows are keyed by header so translate a column index
             return map(LabelSparse, rows, repeat(label), repeat(tipe))
 
 class EncodeCatRows(Filter[Iterable[Union[Any,Dense,Sparse]], Iterable[Union[Any,Dense,Sparse]]]):
